@@ -182,6 +182,29 @@ CHECKS["C05"] = dict(
     modelled="route table, NoAuthz/AuthMux, BasicAuth, NTLMAuth (hand transcription; mux patterns as unanchored substring tests); "
              "SPNEGO only as 'does not reach the handler'; cmd/auth/auth.go not buildable here.")
 
+CHECKS["C07"] = dict(
+    text="Theorems over a model of the connection-id cache with one tunnel and processor per connection: for any number of "
+         "tunnels and any interleaving of their opens and reads, the outputs a tunnel sees (responses, bytes to its host, "
+         "connection attempts, end) equal those of its own operations run alone (non-interference, by induction with a locality "
+         "lemma); a legacy inbound request is attached iff an outbound channel with the same connection id exists. N up to 24 "
+         "(quick) / 64 (thorough) real tunnels run concurrently through the real handlers over both transports with per-tunnel "
+         "users, cookies, token hosts and tagged backends; each tunnel's projected observation is compared with the model's solo "
+         "run.",
+    design="7/C07", technique="Coq proof (non-interference by induction over interleavings) + concurrent gateway-level correspondence",
+    modelled="HandleGatewayProtocol's tunnel lookup/creation and handleLegacyProtocol's attach rules (hand model over the Processor "
+             "model); each operation atomic (goroutine-level interleavings are C09).")
+CHECKS["C09"] = dict(
+    text="PARTIAL BY NATURE. Theorem: for any number of threads that each follow the locking discipline (every access to a shared "
+         "location under that location's mutex) no reachable state of the interleaving semantics is a data race; closed "
+         "disciplined blocks compose. Per-run obligation: the access facts regenerated from package protocol (registry, "
+         "Tunnel.BytesSent, outgoing WritePacket, Gateway.IdleTimeout with the mutexes syntactically held) satisfy the discipline, "
+         "so any goroutines executing any sequences of those accesses never race on them. The runtime half runs the real "
+         "handlers under the Go race detector with 4 and 32 concurrent tunnels doing setup, bidirectional data, keep-alives, close "
+         "/ protocol error / disconnect while the host is sending, and checks frame integrity at the clients.",
+    design="7/C09", technique="Coq proof (lockset soundness, invariant over interleavings) on translator-extracted facts + race-detector soak",
+    modelled="only the syntactically extracted locking discipline of four locations; library internals, other locations and the Go "
+             "memory model are explored by the race detector, not proved.")
+
 NOT_YET = {}
 
 
